@@ -312,6 +312,39 @@ def make(r, size=4):
   return Gen(r, size).program()
 
 
+def shared_with_family(r):
+  """WITH-compiled chains shared by several parents (grounded predicates and the main one): every statement
+  that mentions a WITH table must define it, and its own WITH dependencies, itself."""
+  n_chain = r.choice([2, 2, 3])
+  n_par = r.choice([2, 3, 3, 4])
+  lines = ['T0(a: 1, b: "x");', 'T0(a: 2, b: "y");']
+  prev = 'T0'
+  for i in reversed(range(n_chain)):
+    name = 'W%d' % i
+    k = r.random()
+    if k < 0.6:
+      lines.append('@With(%s);' % name)
+    elif k < 0.8:
+      lines.append('@NoInject(%s);' % name)
+    if r.random() < 0.5:
+      lines.append('%s(a: zq1, b: zq2) :- %s(a: zq1, b: zq2), zq1 > 0;' % (name, prev))
+    else:   # two rules: never injected, compiled as a WITH table by default
+      lines.append('%s(a: zq1, b: zq2) :- %s(a: zq1, b: zq2);' % (name, prev))
+      lines.append('%s(a: zq1 + 1, b: zq2) :- %s(a: zq1, b: zq2), zq1 > 1;' % (name, prev))
+    prev = name
+  uses = []
+  for j in range(n_par):
+    g = 'G%d' % j
+    lines.append('@Ground(%s);' % g)
+    src = r.choice(['W0', 'W0', 'W%d' % (n_chain - 1)])
+    lines.append('%s(a: zq1, b: zq2) :- %s(a: zq1, b: zq2)%s;' % (g, src, r.choice(['', ', zq1 < 9'])))
+    uses.append('%s(a: zq%d)' % (g, j + 3))
+  lines.append('M(a: zq1, n: %s) :- W0(a: zq1), %s;' % (' + '.join('zq%d' % (j + 3) for j in range(n_par)), ', '.join(uses)))
+  r.shuffle(lines)
+  return {'text': '\n'.join(lines) + '\n', 'pred': 'M', 'preds': ['M'], 'tags': ['family:shared-with', '@Ground', '@With'],
+          'ext': ['logica_test', 'logica_home', 'default']}
+
+
 def malformed(r, prog):
   """A damaged copy of a generated program (the separate malformed stream): the compiler must answer with a
   diagnostic or still produce well-formed SQL, never crash."""
